@@ -54,7 +54,7 @@ fn c10_set_pixel_h<const FW: u16, const FH: u16>() {
     let c = &ctl.c;
     assert_framing(c);
     if cfg.exp(x, y) == probe {
-        assert!(c.probe_writes == 1 && c.probe_val == col.wire(), "[C10][C15] pixel placed as for a display built with the new orientation");
+        assert!(c.probe_writes == 1 && c.probe_val == col.wire(), "[C10][C15][C01] pixel placed as for a display built with the new orientation");
     } else {
         assert!(c.probe_writes == 0, "[C10] no other cell changes");
     }
@@ -75,7 +75,7 @@ fn c10_fill_solid_h<const FW: u16, const FH: u16>() {
     let (ctl, _, _) = d.release();
     let c = &ctl.c;
     assert_framing(c);
-    assert!(!c.f_overrun, "[C08] more pixel data than the window holds");
+    crate::indep! { assert!(!c.f_overrun, "[C08] more pixel data than the window holds"); }
     let inside = |x: u16, y: u16| {
         (x as i32) >= rx && (x as i64) < rx as i64 + rw as i64 && (y as i32) >= ry && (y as i64) < ry as i64 + rh as i64
     };
@@ -97,7 +97,7 @@ macro_rules! h {
         }
     };
 }
-//@ props=C10,C08,C15 inst="VModel<Rgb565,3,2>" bounds="loop-free: all cfgs x colour order x refresh order, 1 or 2 symbolic set_orientation calls, then a symbolic in-bounds set_pixel" timeout=600 mem=4
+//@ props=C10,C08,C15,C01 inst="VModel<Rgb565,3,2>" bounds="loop-free: all cfgs x colour order x refresh order, 1 or 2 symbolic set_orientation calls, then a symbolic in-bounds set_pixel" timeout=600 mem=4
 h!(c10_set_pixel_v3x2, 3, c10_set_pixel_h::<3, 2>());
 //@ props=C10,C08 inst="VModel<Rgb565,240,320>" bounds="same" timeout=600 mem=4
 h!(c10_set_pixel_v240x320, 3, c10_set_pixel_h::<240, 320>());
